@@ -69,6 +69,17 @@ fn programs(quick: bool) -> Vec<(Program, bool)> {
         p.frozen = vec![Role::Worker];
         v.push((p, false));
     }
+    // sequential: an upsert carrying a value supersedes the old value even when the key had expired but was not swept
+    for (name, op) in [
+        ("value+ttl", Op::Upsert { k: 1, value: true, w: None, ttl_ms: Some(3000), remove_ttl: false }),
+        ("value+remove-ttl", Op::Upsert { k: 1, value: true, w: None, ttl_ms: None, remove_ttl: true }),
+    ] {
+        v.push((mk(format!("clock+2s;upsert(k,{});get(k);get_ref(k) on an expired-unswept key", name), 100, vec![put_ttl(1, 30, 1000)], vec![vec![adv(2000), op, get(1), rd(1, ReadVariant::GetRef)]]), false));
+    }
+    // reference reads of a TTL key while its delete is in flight
+    for var in [ReadVariant::GetRef, ReadVariant::MapGetRef] {
+        v.push((mk(format!("delete(k);{:?}(k)||{:?}(k)x2 /ttl", var, var), 100, vec![put_ttl(1, 30, 9000)], vec![vec![del(1), rd(1, var)], vec![rd(1, var), rd(1, var)]]), false));
+    }
     // two writers and a reader
     v.push((mk("upsert(k)||upsert(k)||get(k)".into(), 10, vec![put(1, 2)], vec![vec![ups_v(1)], vec![ups_v(1)], vec![get(1)]]), false));
     // put not yet applied racing a reader and a deleter
